@@ -58,14 +58,17 @@ Proof. exact no_leak. Qed.
 Theorem c21_invariant : forall m m', inv m -> start m = Ok m' -> inv m' /\ forall k, dirty m' k = false.
 Proof. intros m m' I E. destruct (start_clean m m' I E) as (_ & _ & _ & I' & D). auto. Qed.
 
-(* mint / burn deferral of RevertibleLiquidityMarket — MODEL ONLY (partial: not driven) *)
-Theorem c21_mint_burn_deferred_partial : forall l amt l',
-  (lm_mint l amt = Ok l' \/ lm_burn l amt = Ok l') -> supply l' = supply l /\ lm_finish l' false = supply l.
-Proof.
-  intros l amt l' [E|E].
-  - destruct (lm_mint_keeps_supply l amt l' E) as (S & _). split; [exact S|]. cbn. exact S.
-  - destruct (lm_burn_keeps_supply l amt l' E) as (S & _). split; [exact S|]. cbn. exact S.
-Qed.
+(* MINT / BURN DEFERRAL of RevertibleLiquidityMarket: requests only accumulate ([lm_sums] is an
+   independent account of the accepted requests); an abandoned operation issues no token-program
+   CPI and leaves the supply alone; a committed one mints / burns exactly the accumulated totals
+   and the supply stays within u64 *)
+Theorem c21_mint_burn_deferred : forall acts sup, 0 <= sup < 2 ^ 64 ->
+  let l := fst (lm_run (mklm sup 0 0) acts) in
+  supply l = sup /\
+  (to_mint l, to_burn l) = lm_sums sup 0 0 acts /\
+  lm_cpis l false = [] /\ lm_finish l false = sup /\
+  lm_finish l true = sup + to_mint l - to_burn l /\ 0 <= lm_finish l true < 2 ^ 64.
+Proof. exact mint_burn_deferred. Qed.
 
 (* non-vacuity: abandon, then commit, then an empty commit *)
 Example c21_ex :
